@@ -287,7 +287,7 @@ func (x *Exec) invoke(fr *Frame, pc *preparedCall, st *State, k func(*State, []V
 		x.havocCall(fr, pc, name, st, k)
 		return
 	}
-	if decl, pkg := x.L.funcDecl(pc.fn); decl != nil && decl.Body != nil && fr.depth < 12 && !x.inFrameChain(fr, pc.fn) {
+	if decl, pkg := x.L.funcDecl(pc.fn); decl != nil && decl.Body != nil && fr.depth < 12 && !x.inFrameChain(fr, pc.fn) && pkg != nil && inModule(pkg.PkgPath) {
 		x.inlineFunc(fr, pc, decl, pkg, fc, st, k)
 		return
 	}
@@ -313,6 +313,10 @@ func (x *Exec) freshResults(st *State, sig *types.Signature, hint string) []Valu
 
 func (x *Exec) havocCall(fr *Frame, pc *preparedCall, name string, st *State, k func(*State, []Value)) {
 	x.Abstractions["call to "+name+" without contract: results unconstrained, heap havocked"] = true
+	if pc.iface && pc.recv != nil {
+		// calls through an interface are counted under the receiver's identity
+		x.countCall(st, x.asTermAny(pc.recv))
+	}
 	if !pureExternal(name) {
 		x.havocHeap(st)
 	}
@@ -332,6 +336,9 @@ func (x *Exec) callUnknownFuncValue(fr *Frame, pc *preparedCall, st *State, k fu
 		}
 	}
 	x.Abstractions["call of unknown function value at "+x.pos(pc.e)+": results unconstrained, heap havocked"] = true
+	if pc.fv != nil && pc.fv.Sym != nil {
+		x.countCall(st, pc.fv.Sym)
+	}
 	x.havocHeap(st)
 	var out []Value
 	if pc.fv != nil && pc.fv.Sig != nil {
